@@ -89,11 +89,24 @@ def _cases(draw):
     if case.get("rejected"):
         return case
     if not toplevel_ok:
-        # while KF-C07-1 is open: no variable may be typed directly (or as list) by a scalar that has `serialize`
+        # while KF-C07-1 is open (serialize runs on the top-level argument itself: on UNSET when omitted, on None, on a
+        # whole list): a variable typed as a LIST of the scalar is not called at all; a variable typed directly by the
+        # scalar always gets a non-null value (the defect's region is omission / None / lists, not plain values)
+        k = 0
         for op in case["ops"]:
-            if any(v["type"].strip("[]!") == "Money" for v in op["vars"]):
+            mv = [v for v in op["vars"] if v["type"].strip("[]!") == "Money"]
+            if any("[" in v["type"] for v in mv):
                 case["calls"] = [c for c in case["calls"] if c["op"] != op["name"]]
                 op["skip"] = True
+                continue
+            for c in case["calls"]:
+                if c["op"] != op["name"]:
+                    continue
+                for v in mv:
+                    if c["args"].get(v["name"]) is None:
+                        k += 1
+                        c["args"][v["name"]] = {"$money": 0 if d.bool(0.3) else 1000 + k}
+                        d.tag("scalar.toplevel_value_forced")
     case["extras"] = list(extras)
     case["dt_style"] = dt_style
     case["features"] = sorted(d.features)
@@ -104,10 +117,22 @@ def strategy(tier):
     return _cases()
 
 
+def sent_json(spec, serialize):
+    """what the server must receive for a value specification: every Money occurrence as serialize(value)"""
+    if isinstance(spec, dict) and "$money" in spec:
+        raw = f"m#{spec['$money']}" if spec["$money"] else ""
+        return "S:" + raw if serialize else raw
+    if isinstance(spec, dict) and "$i" in spec:
+        return {k: sent_json(v, serialize) for k, v in spec["f"].items()}
+    if isinstance(spec, list):
+        return [sent_json(v, serialize) for v in spec]
+    return spec_to_json(spec)
+
+
 def occurrences_in_args(spec, out, inside):
     """(raw, inside_structure) for every transmitted Money occurrence of a value specification"""
     if isinstance(spec, dict) and "$money" in spec:
-        out.append((f"m#{spec['$money']}", inside))
+        out.append((f"m#{spec['$money']}" if spec["$money"] else "", inside))
     elif isinstance(spec, dict) and "$i" in spec:
         for v in spec["f"].values():
             occurrences_in_args(v, out, True)
@@ -183,9 +208,7 @@ def run_case(case, scratch):
                 fail("serialize_count", "", f"{op['name']}: serialize calls {got} but transmitted occurrences are {sorted(raw for raw, _ in occ)}")
         elif ser_calls:
             fail("serialize_count", "unconfigured", f"{op['name']}: serialize called although not configured")
-        expected_vars = {k: spec_to_json(v) for k, v in call["args"].items()}
-        if "serialize" in extras:
-            expected_vars = json.loads(json.dumps(expected_vars).replace('"m#', '"S:m#'))
+        expected_vars = {k: sent_json(v, "serialize" in extras) for k, v in call["args"].items()}
         if True:
             if body.get("variables") != expected_vars:
                 fail("sent_value", "", f"{op['name']}: variables {json.dumps(body.get('variables'))[:250]} expected {json.dumps(expected_vars)[:250]}")
